@@ -1600,13 +1600,14 @@ fn embeds(sent: &[Ev], cmds: &[&Ev]) -> bool {
 // the map back-pressure queue on its own (small scope, exhaustive)
 
 /// One symbol per step: 0 upd a, 1 upd "a" (the same Recon key), 2 upd b, 3 upd c, 4 rem a, 5 rem b,
-/// 6 clear, 7 pop (what the write task does when a blocked write completes).
+/// 6 clear, 7 pop (what the write task does when a blocked write completes), 8 upd / 9 rem with a key that is
+/// not valid UTF-8 (must be refused by itself and change nothing else).
 #[derive(Clone, Debug, Serialize, Deserialize)]
 struct QCase {
     ops: Vec<u8>,
 }
 
-const QSYMS: u64 = 8;
+const QSYMS: u64 = 10;
 
 fn enumerate_queue(depth: u32, worker: usize, workers: usize) -> impl Iterator<Item = QCase> {
     (1..=depth).flat_map(move |d| {
@@ -1626,7 +1627,7 @@ fn enumerate_queue(depth: u32, worker: usize, workers: usize) -> impl Iterator<I
 
 fn arb_qcase(max: usize) -> impl Strategy<Value = QCase> {
     // pops are frequent so that the queue head moves while entries stay behind
-    let sym = prop_oneof![6 => 0u8..4, 2 => 4u8..6, 2 => Just(6u8), 5 => Just(7u8)];
+    let sym = prop_oneof![12 => 0u8..4, 4 => 4u8..6, 4 => Just(6u8), 10 => Just(7u8), 1 => 8u8..10];
     proptest::collection::vec(sym, 1..max).prop_map(|ops| QCase { ops })
 }
 
@@ -1661,8 +1662,27 @@ fn check_queue(case: &QCase) -> Verdict {
         }
     };
     let spell = |k: u8| -> BytesMut { BytesMut::from(KEYS[k as usize].0.as_bytes()) };
+    let mut invalid_pushed = false;
+    let mut valid_update_after_invalid = false;
     for (i, sym) in case.ops.iter().enumerate() {
         let id = (i + 1).to_string();
+        if *sym >= 8 {
+            // a key that is not valid UTF-8: refused, and nothing else is affected
+            let bad = BytesMut::from(&[b'k', 0xff, 0xfe][..]);
+            let raw: MapOperation<BytesMut, BytesMut> = if *sym == 8 {
+                MapOperation::Update { key: bad, value: BytesMut::from(id.as_bytes()) }
+            } else {
+                MapOperation::Remove { key: bad }
+            };
+            if q.push_operation(raw).is_ok() {
+                v.fail("queue:invalid-key-accepted", format!("an operation whose key is not UTF-8 was accepted; ops {:?}", case.ops));
+            }
+            invalid_pushed = true;
+            continue;
+        }
+        if invalid_pushed && *sym < 4 {
+            valid_update_after_invalid = true;
+        }
         let op: Option<(MapOperation<BytesMut, BytesMut>, Ev)> = match sym {
             0 => Some((MapOperation::Update { key: spell(0), value: BytesMut::from(id.as_bytes()) }, Ev::Upd(0, id.clone().into_bytes()))),
             1 => Some((MapOperation::Update { key: spell(1), value: BytesMut::from(id.as_bytes()) }, Ev::Upd(0, id.clone().into_bytes()))),
@@ -1690,7 +1710,7 @@ fn check_queue(case: &QCase) -> Verdict {
                     after_popped_clear = false;
                 }
                 if let Err(e) = q.push_operation(raw) {
-                    v.fail("queue:valid-key-refused", format!("{}", e));
+                    v.fail("queue:valid-key-refused", format!("{} (ops {:?})", e, case.ops));
                 }
                 sent.push(ev);
             }
@@ -1746,6 +1766,8 @@ fn check_queue(case: &QCase) -> Verdict {
         v.nontrivial();
     }
     v.class_if(got.len() < sent.len(), "superseded");
+    v.class_if(invalid_pushed, "invalid-utf8-key-pushed");
+    v.class_if(valid_update_after_invalid, "valid-update-after-invalid-key");
     v.class_if(clear_popped_with_2, "clear-popped-with>=2-entries-queued");
     v.class_if(non_tail_after_clear, "op-on-queued-non-tail-key-after-popped-clear");
     v
